@@ -50,8 +50,19 @@ def showVerdict : Verdict → String
   | .accept => "accept"
   | .reject => "reject"
 
+def v3? (s : String) : Option V3 :=
+  if s = "a" then some .accept else if s = "r" then some .reject else if s = "i" then some .ignore
+  else if s = "u" then some .unknown else none
+
+def showV3 : V3 → String
+  | .accept => "accept" | .reject => "reject" | .ignore => "ignore" | .unknown => "unknown"
+
 def step (toks : List String) : String :=
   match toks with
+  | ["combine", vs] =>
+    match list? v3? vs with
+    | some vs => showV3 (combine vs)
+    | none => "bad-op"
   | inst :: mx :: cfgs :: eons :: dkgs :: stored :: op =>
     match nat? inst, nat? mx, semis? config? cfgs, semis? eon? eons, semis? dkg? dkgs, semis? stored? stored with
     | some inst, some mx, some cfgs, some eons, some dkgs, some stored =>
